@@ -137,3 +137,17 @@ def draw_uniform(ex):
     u = tm.app('U', (ex.kappa,), REAL)
     ex.kappa = tm.add(ex.kappa, tm.mk_int(1))
     return u
+
+
+@spec('ifun')
+def _ifun(ex, name, *args):
+    """uninterpreted integer-valued function"""
+    ts = []
+    for a in args:
+        if isinstance(a, Obj):
+            ts.append(a.ref)
+        elif isinstance(a, Arr):
+            ts.append(a.term)
+        else:
+            ts.append(to_term(a))
+    return tm.app(name, tuple(ts), INT)
